@@ -73,7 +73,7 @@ Tree07 ==
 Mem07 == {<<103,117,101,115,116>>, <<97,100,109,105,110>>}
 
 (* ---- C07 requests ---------------------------------------------------------------------------------------------- *)
-NoReq == [kind |-> "none", ur |-> 0, occ |-> 0]
+NoReq == [kind |-> "none", ur |-> 0, occ |-> 0, sp |-> 0]
 P0 == {<<>>, <<A>>}
 P1 == {<<s>> : s \in Sigma} \cup {<<A, s>> : s \in Sigma} \cup {<<s, A>> : s \in Sigma} \cup {<<A, A, s>> : s \in Sigma}
 P2 == {<<s, u>> : s \in Sigma0, u \in Sigma0}
@@ -88,7 +88,7 @@ NamesCtx == {X, A, Btxt}
 Names == Sigma \cup NamesCtx \cup {Absent}
 
 Rq(kind, occ, path, name, newname, newpath, comment) ==
-  [kind |-> kind, occ |-> occ, ur |-> 0, path |-> path, name |-> name, newname |-> newname, newpath |-> newpath, comment |-> comment]
+  [kind |-> kind, occ |-> occ, ur |-> 0, sp |-> 0, path |-> path, name |-> name, newname |-> newname, newpath |-> newpath, comment |-> comment]
 
 K2Read == {"info", "download", "dlfolder"}
 K2Write == {"newfolder", "delete", "upload"}
@@ -157,7 +157,15 @@ ReqsShared == ReqsList \cup ReqsK2 \cup ReqsRename \cup ReqsMove \cup ReqsUpFold
 NearPaths == {Absent, EncPath(<<A>>), EncPath(<<DotDot>>)}
 ReqsUr == {[r EXCEPT !.ur = 1] : r \in {x \in ReqsShared : x.occ = 0 /\ x.path \in NearPaths /\ x.newpath \in NearPaths \cup {Absent}}}
           \cup {[r EXCEPT !.ur = 1, !.occ = 0] : r \in {x \in ReqsShared : x.occ = 1 /\ x.kind \in K2Read \cup {"list"} /\ x.path \in NearPaths}}
-Reqs07 == ReqsShared \cup ReqsAcct \cup ReqsUr \cup ReqsSeq
+(* the same directory, spelled non-canonically in the configuration (sp: 1 trailing slash, 2 double slash, 3 dot
+   segment) - as the server-wide FileRoot (ur = 0) or as the account's FileRoot (ur = 1).  Top-level requests, every
+   name of the alphabet (the ones that resolve to the root itself matter most). *)
+SpBase == {x \in ReqsShared \cup ReqsUr : x.occ = 0 /\ x.path = Absent /\ x.newpath \in {Absent, EncPath(<<A>>)}
+                                         /\ (x.kind = "upfolder" => x.item.count <= 1)}
+          \cup {[x EXCEPT !.occ = 0] : x \in {y \in ReqsShared : y.occ = 1 /\ y.ur = 0 /\ y.path = Absent /\ y.kind \in K2Read \cup {"list"}}}
+Spellings == IF Level = "core" THEN {<<0, 1>>, <<1, 2>>} ELSE {0, 1} \X {1, 2, 3}      \* <<ur, sp>>
+ReqsSp == UNION {{[x EXCEPT !.sp = us[2]] : x \in {y \in SpBase : y.ur = us[1]}} : us \in Spellings}
+Reqs07 == ReqsShared \cup ReqsAcct \cup ReqsUr \cup ReqsSeq \cup ReqsSp
 
 (* the places a leaving path would land on, occupied in sandbox variant occ = 1 *)
 Landing == {SbxP \o <<X>>, SbxP \o <<<<97,98,115>>>>, SbxP \o <<Config, X \o Yaml>>, <<L1, L2, L3, X>>, <<L1, L2, X>>, <<L1, L2, L3, Abs3>>,
@@ -271,6 +279,7 @@ ViewsAgreeOnSizeType ==
 
 LastStep == hist'[Len(hist')]
 ForksTravel == [][ForksTravelObs(LastStep, tree, tree', rootp)]_mcvars
+ForksStay == [][ForksStayObs(LastStep, tree, tree', rootp)]_mcvars
 NewFolderNeverReplaces == [][NewFolderNeverReplacesObs(LastStep, tree, tree')]_mcvars
 OpsChangeExactly == [][WellFormed(LastStep, tree, rootp) => Core(tree', tree) = Core(Requested(LastStep, tree, rootp), tree)]_mcvars
 StaysInRoot == \A q \in DOMAIN tree : Inside(q, rootp)
